@@ -4649,6 +4649,8 @@ def _inner_worker(a, b, do_conj):
         b_qdata = b_qdata[perm]
         b_data = [b_data[i] for i in perm]
     for i, j in _iter_common_sorted(a_qdata, b_qdata):
+        if a_data[i].size == 0:
+            continue  # nothing to add (and the BLAS wrappers reject empty arrays)
         res += blas_dot(a_data[i], b_data[j])
         # same as res += np.inner(a_data[i].reshape((-1, )), b_data[j].reshape((-1, )))
         # (or with complex conj if 'do_conj')
@@ -4711,17 +4713,17 @@ def _tensordot_pre_reshape(data, cut, dtype, same_shape_before_cut=True):
         return [[np.reshape(T, (-1,)).astype(dtype, order='F', copy=False) for T in blocks] for blocks in data]
     res = []
     for blocks in data:
-        if same_shape_before_cut:
+        new_blocks = []
+        for T in blocks:
+            # explicit matrix shape: a `-1` can not be inferred for blocks of size 0
             p = 1
-            for s in blocks[0].shape[:cut]:
+            for s in T.shape[:cut]:
                 p *= s
-            shape = (p, -1)
-        else:
-            p = 1
-            for s in blocks[0].shape[cut:]:
-                p *= s
-            shape = (-1, p)
-        res.append([np.reshape(T, shape).astype(dtype, order='F', copy=False) for T in blocks])
+            q = 1
+            for s in T.shape[cut:]:
+                q *= s
+            new_blocks.append(np.reshape(T, (p, q)).astype(dtype, order='F', copy=False))
+        res.append(new_blocks)
     return res
 
 
@@ -4822,6 +4824,9 @@ def _tensordot_pre_worker(a, b, cut_a, cut_b):
             ks = _iter_common_sorted(a_qdata, b_qdata)
             if len(ks) == 0:
                 return None
+            if any(a[k1].size == 0 or b[k2].size == 0 for k1, k2 in ks):
+                # the BLAS wrappers reject empty arrays; np.dot gives the (zero or empty) result
+                return sum(np.dot(a[k1], b[k2]) for k1, k2 in ks)
             k1, k2 = ks[0]
             sum_ = blas_dot(1.0, a[k1], b[k2])
             for k1, k2 in ks[1:]:
@@ -4837,6 +4842,8 @@ def _tensordot_pre_worker(a, b, cut_a, cut_b):
             ks = _iter_common_sorted(a_qdata, b_qdata)
             if len(ks) == 0:
                 return None
+            if any(a[k1].size == 0 or b[k2].size == 0 for k1, k2 in ks):
+                return sum(np.dot(a[k1], b[k2]) for k1, k2 in ks)
             k1, k2 = ks[0]
             sum_ = blas_dot(1.0, b[k2], a[k1], **kw_no_overwrite)
             for k1, k2 in ks[1:]:
